@@ -81,6 +81,10 @@ MUTS = {
                     .reserve(if len < BUFFER_SIZE { BUFFER_SIZE } else { len });""", """                self.buffer
                     .reserve(if len < BUFFER_SIZE { BUFFER_SIZE } else { len });
                 if len >= BUFFER_SIZE { self.buffer.swap(len - 1, len - 2); }""")],
+ 'header_magic_not_checked': [("FILE:format/mod.rs", ""), ("    if magic != UUID {\n        return Err(WrongMagic.into());\n    }", "    let _ = magic;")],
+ 'header_offset_not_advanced': [("                    buffer.offset += read;\n                    return Ok(header);", "                    let _ = read;\n                    return Ok(header);")],
+ 'some0_is_eof': [("            if cb.read_buffer(&mut self.buffer).wrap()?.is_some() {", "            if cb.read_buffer(&mut self.buffer).wrap()?.map(|b| !b.is_empty()).unwrap_or(false) {")],
+ 'unknown_version_accepted': [("            _ => return Err(format::Error::UnknownVersion),", "            _ => Reader::empty(format::Version::V2),")],
  'tickskip_keeps_prev (D11)': [("                self.prev_player_cid = None;\n                if self.in_tick {", "                if self.in_tick {")],
  'cids_plain_add (D25)': [("0..self.max_cid.saturating_add(1)", "0..self.max_cid + 1")],
 }
@@ -99,12 +103,19 @@ try:
     for name in which:
         s = orig
         ok = True
-        for a, b in MUTS[name]:
+        edits = MUTS[name]
+        other = None
+        if edits and edits[0][0].startswith('FILE:'):
+            other = REPO + '/teehistorian/src/' + edits[0][0][5:]
+            edits = edits[1:]
+            oorig = open(other).read()
+            s = oorig
+        for a, b in edits:
             if a not in s:
                 print(name, 'PATTERN NOT FOUND:', a[:60].replace('\n',' ')); ok = False; break
             s = s.replace(a, b, 1)
         if not ok: continue
-        open(F,'w').write(s)
+        open(other or F,'w').write(s)
         r = sh('cargo build --offline --quiet', cwd=V+'/harness')
         if r.returncode != 0:
             print(name, 'DOES NOT COMPILE\n', r.stdout[-1500:]); continue
@@ -120,6 +131,9 @@ try:
         print('== %-30s exit=%d  %s' % (name, r.returncode, dict(tags) if tags else 'NOT CAUGHT'))
         for t,(ln,msg) in list(first.items())[:2]:
             print('     first %s: request line %s: %s' % (t, ln, msg))
+        if other:
+            open(other,'w').write(oorig)
+        open(F,'w').write(orig)
 finally:
     open(F,'w').write(orig)
     sh('cargo build --offline --quiet', cwd=V+'/harness')
